@@ -364,3 +364,49 @@ type connAddr struct{}
 
 func (connAddr) Network() string { return "sink" }
 func (connAddr) String() string  { return "sink" }
+
+// ZCWriter is a contract-abiding bufiox.Writer that is as lazy as the interface allows: every Malloc region is a
+// separate block pre-filled with garbage, WriteBinary keeps the caller's slice ("it may be a zero copy write")
+// and nothing is looked at before Flush, which concatenates the pieces into Out.
+type ZCWriter struct {
+	pieces [][]byte
+	n      int
+	Out    []byte
+	Flushes int
+}
+
+func (w *ZCWriter) Malloc(n int) ([]byte, error) {
+	if n < 0 {
+		return nil, errNeg
+	}
+	b := make([]byte, n)
+	for i := range b {
+		b[i] = 0xA7 ^ byte(i)
+	}
+	w.pieces = append(w.pieces, b)
+	w.n += n
+	return b, nil
+}
+
+func (w *ZCWriter) WriteBinary(bs []byte) (int, error) {
+	w.pieces = append(w.pieces, bs) // retained, not copied
+	w.n += len(bs)
+	return len(bs), nil
+}
+
+func (w *ZCWriter) WrittenLen() int { return w.n }
+
+func (w *ZCWriter) Flush() error {
+	for _, p := range w.pieces {
+		w.Out = append(w.Out, p...)
+	}
+	w.pieces, w.n = nil, 0
+	w.Flushes++
+	return nil
+}
+
+// DirectWriterV is the same recorder behind a NocopyWriter that is a struct VALUE, not a pointer (an interface
+// holding it is non-nil, and it has no nil-able representation).
+type DirectWriterV struct{ P *DirectWriter }
+
+func (d DirectWriterV) WriteDirect(b []byte, remainCap int) error { return d.P.WriteDirect(b, remainCap) }
